@@ -5,7 +5,7 @@ import IronCalc.Formula.RenameProofs
   `set`/`eraseIdx`/`insertIdx` on lookups.
 -/
 namespace IronCalc.Book
-open IronCalc.Formula
+open IronCalc.RefTree
 
 /-- index-injectivity of a list (no element occurs at two positions) -/
 def Inj (l : List String) : Prop := ∀ (j k : Nat) (x : String), l[j]? = some x → l[k]? = some x → j = k
@@ -162,7 +162,7 @@ theorem idAt_congr {s s' : List Sheet} (h : s.map (·.id) = s'.map (·.id)) (i :
 end IronCalc.Book
 
 namespace IronCalc.Book
-open IronCalc.Formula
+open IronCalc.RefTree
 
 /-- the ghost condition for one stored prefix: a prefix that names no sheet is not the new name -/
 def GhostOK (names : List String) (new : String) (sn : Option String) : Prop :=
@@ -252,7 +252,7 @@ theorem resolve_rewrite (F : Fold) {names : List String} (hinj : Inj names) {i :
 end IronCalc.Book
 
 namespace IronCalc.Book
-open IronCalc.Formula
+open IronCalc.RefTree
 
 /-- as `resolveRef_rename`, when the rewrite parsed the text in another context `ctxR` than the
     one it is read in afterwards (defined names: rewritten in the context of the renamed sheet,
@@ -383,7 +383,7 @@ theorem getElem?_setName_map (S : List Sheet) (g : Sheet → Sheet) (i : Nat) (n
 end IronCalc.Book
 
 namespace IronCalc.Book
-open IronCalc.Formula
+open IronCalc.RefTree
 
 /-- a rename changes one entry of the name vector and nothing of the id vector or name scopes -/
 theorem rename_vectors {fixed : Bool} {F : Fold} {b b' : Book} {i : Nat} {new : String}
@@ -475,7 +475,7 @@ theorem rename_parsed {F : Fold} {b b' : Book} {i : Nat} {new : String}
 end IronCalc.Book
 
 namespace IronCalc.Book
-open IronCalc.Formula
+open IronCalc.RefTree
 
 theorem bind_idAt_eq_idByName (sheets : List Sheet) (n : String) :
     (sheetIndex (sheets.map (·.name)) n).bind (idAt sheets) = idByName sheets n := by
@@ -591,7 +591,7 @@ theorem moveSheet_perm {b b' : Book} {i j : Nat} (h : moveSheet b i j = .ok b') 
 end IronCalc.Book
 
 namespace IronCalc.Book
-open IronCalc.Formula
+open IronCalc.RefTree
 
 theorem nodup_getElem?_inj {α : Type} {l : List α} (h : l.Nodup) :
     ∀ (j k : Nat) (a : α), l[j]? = some a → l[k]? = some a → j = k := by
